@@ -647,6 +647,10 @@ def run_gate(ctx):
     sup, iface, subs = make_real()
     publics = sorted(a for a in dir(iface) if not a.startswith('_') and inspect.ismethod(getattr(iface, a)))
     ops, il = [], []
+    # regression corpus: F39 (fixed in e65d15a) -- sendRemoteCommEvent used to answer True and emit an event while shutting down
+    for mood in (-1, 0):
+        ops.append('gate sendRemoteCommEvent %d 1' % mood)
+        il.append(gate_case(ctx, 'sendRemoteCommEvent', mood, ['t', 'd'], control))
     for name in publics:
         for mood in (-1, 0, 1, 2):
             args = typed_args(rng, getattr(iface, name))
@@ -733,7 +737,10 @@ class Wire:
         for piece in pieces_of(raw, cuts):
             if closed:
                 break                   # the server hung up: a client's further writes go nowhere
-            b.sendall(piece)
+            try:
+                b.sendall(piece)
+            except OSError:
+                break
             while not closed and select.select([a], [], [], 0)[0]:
                 asyncore.read(ch)
         deferred = any(isinstance(p, xmlrpc.DeferredXMLRPCResponse) for p in self.pushed)
@@ -750,6 +757,8 @@ class Wire:
                     out += d
             except BlockingIOError:
                 pass
+            except OSError:             # the server hung up with part of the request unread: the client sees a reset
+                closed.append(1)
             if ch.delay is not None and ch.delay is not False:
                 polls += 1
                 if between_polls:
@@ -767,6 +776,19 @@ class Wire:
         except Exception:
             pass
         self.b.close()
+
+
+def server_said(w):
+    """what the channel logged when it hung up (object addresses and the traceback removed)"""
+    if not (w.closed and w.said):
+        return None
+    t = re.sub(r'<supervisor\.http\.deferring_http_channel[^>]*>', '<channel>', w.said[-1])
+    return re.sub(r'\s*\[/.*$', '', t, flags=re.S)[:240]
+
+
+def short(x, n=160):
+    r = repr(x)
+    return r if len(r) <= n else r[:n] + '...(%d characters)' % len(r)
 
 
 def judge_response(ctx, method, out, deferred, inp, cuts=None, noresp_kind=None, server_said=None):
@@ -832,7 +854,7 @@ def wire_request(handler, method, params, between_polls=None, max_polls=80, repl
     try:
         raw, hlen = build_raw(method, params, http)
         out, polls, deferred, never = w.exchange(raw, cuts, between_polls, max_polls)
-        said = w.said[-1][:300] if (w.closed and w.said) else None
+        said = server_said(w)
     finally:
         w.close()
     if never:
@@ -967,7 +989,9 @@ def e2e_multi_case(ctx, picks):
     """system.multicall over the wire: element for element what single requests return"""
     from supervisor import xmlrpc
     sup, iface, h = e2e_world(ctx)
-    out = e2e_request(h, 'system.multicall', [[{'methodName': m, 'params': p} for m, p in picks]])
+    mparams = [[{'methodName': m, 'params': p} for m, p in picks]]
+    out = e2e_request(h, 'system.multicall', mparams)
+    mlast = e2e_request.last
     want = []
     for m, p in picks:
         sup2, iface2, h2 = e2e_world(ctx)
@@ -978,6 +1002,7 @@ def e2e_multi_case(ctx, picks):
     if [norm(g) for g in got] != [norm(w) for w in want]:
         ctx.violation('multicall-differs-from-sequential', 'multicall over the wire answered %r, single requests answer %r' % (got, want),
                       {'part': 'e2e-multi', 'calls': [[m, p] for m, p in picks]})
+    frag_variants(ctx, 'system.multicall', mparams, 1, mlast)        # the same multicall cut into pieces answers the same
 
 
 # =================================================================================================
@@ -1060,9 +1085,9 @@ def frag_deliver(ctx, method, params, mood, cuts, http, base_key, prepare=None, 
     key = answer_key(res)
     if key != base_key and res.get('status') != 'no-response':          # (no response at all: reported by wire_request)
         ctx.violation('answer-depends-on-fragmentation' if cuts else 'answer-depends-on-http-variant',
-                      '%s%r delivered %s answers %r; delivered at once as HTTP/1.1 it answers %r' % (
-                          method, tuple(params), ('in %d pieces (cuts %r%s)' % (npieces, list(cuts)[:12], ', inside a character' if incut else ''))
-                          if cuts else 'as ' + http, key, base_key), inp)
+                      '%s%s delivered %s answers %s; delivered at once as HTTP/1.1 it answers %s' % (
+                          method, short(tuple(params)), ('in %d pieces (cuts %r%s)' % (npieces, list(cuts)[:12], ', inside a character' if incut else ''))
+                          if cuts else 'as ' + http, short(key), short(base_key)), inp)
     return res
 
 
@@ -1082,7 +1107,7 @@ def frag_variants(ctx, method, params, mood, base, prepare=None, regression=None
             frag_deliver(ctx, method, params, mood, cuts, http, base_key, prepare, regression)
 
 
-NONASCII = ['caf\u00e9-\u20ac-worker', 'grp:pr\u00f6c', 'n\u00e9ant:\u20ac', '\U0001f600', '\u00e9', 'a\u00e9', '\u4e2d\u6587:\u0440\u0443', 'x\u07ff\u0800\uffff',
+NONASCII = ['caf\u00e9-\u20ac-worker', 'grp:pr\u00f6c', 'n\u00e9ant:\u20ac', '\U0001f600', '\u00e9', 'a\u00e9', '\u4e2d\u6587:\u0440\u0443', 'x\u07ff\u0800\ufffd',
             'grp:\U00010000\U0010ffff', 'SIGN\u00c9', '\u00e9\u20ac\U0001f600\n', 'd\u00e4t\u00e4 \u4e2d']
 
 FRAG_CORPUS = [      # (method, params): the first is the input of seeded change C12-4 (demo.py); the rest: one per string-argument role
@@ -1157,7 +1182,7 @@ def session_case(ctx, reqs, mood=1, plans=None):
                 inp = {'part': 'e2e-session', 'reqs': [[m_, p_] for m_, p_ in reqs], 'plans': plans_used, 'mood': mood}
                 if never:
                     keys.append(('http', never)); continue
-                said = w.said[-1][:300] if (w.closed and w.said) else None
+                said = server_said(w)
                 res = judge_response(ctx, m, out, deferred, inp, plans[i], 'no-answer-on-reused-connection' if one_connection else None, said)
                 keys.append(answer_key(res))
         finally:
@@ -1175,8 +1200,8 @@ def session_case(ctx, reqs, mood=1, plans=None):
     ctx.case_done(('e2e-session', repr(reqs), repr(plans_used)), nontrivial=True)
     if got != want and not any(k == ('http', 'no-response') for k in got):
         k = next(i for i in range(len(reqs)) if got[i] != want[i])
-        ctx.violation('answer-depends-on-connection-reuse', 'request %d (%s%r) on a reused connection, cuts %r, answers %r; on its own connection %r'
-                      % (k, reqs[k][0], tuple(reqs[k][1]), plans_used[k], got[k], want[k]),
+        ctx.violation('answer-depends-on-connection-reuse', 'request %d (%s%s) on a reused connection, cuts %r, answers %s; on its own connection %s'
+                      % (k, reqs[k][0], short(tuple(reqs[k][1])), plans_used[k], short(got[k]), short(want[k])),
                       {'part': 'e2e-session', 'reqs': [[m_, p_] for m_, p_ in reqs], 'plans': plans_used, 'mood': mood})
 
 
@@ -1280,9 +1305,22 @@ class SlowNs(object):
         return cb
 
 
-def deferred_request(handler, method, params, between_polls=None, max_polls=60):
+def deferred_request(handler, method, params, between_polls=None, max_polls=60, cuts=None, replay_input=None):
     """the request on the wire (wire_request); the deferred producer is polled by the real channel's refill_buffer"""
-    return wire_request(handler, method, params, between_polls, max_polls)
+    return wire_request(handler, method, params, between_polls, max_polls, cuts=cuts or None, replay_input=replay_input,
+                        noresp_kind=NOFRAG if cuts else None)
+
+
+def auto_cuts(rng, method, params):
+    """one delivery plan for a request: inside a multi-byte character where there is one, and a few random cuts"""
+    raw, hlen = build_raw(method, params, '1.1')
+    mb = inside_char_cuts(raw)
+    cuts = set(random_cuts(rng, len(raw), rng.randrange(0, 4)))
+    if mb:
+        cuts.update(rng.sample(mb, min(len(mb), rng.randrange(1, 3))))
+    else:
+        cuts.add(rng.randrange(hlen, len(raw)))
+    return sorted(cuts)
 
 
 def direct_answer(fn, between_polls=None, max_polls=60):
@@ -1327,7 +1365,7 @@ def deferred_world(pname='proc', slow=True):
     return sup, iface, subs2
 
 
-def deferred_slow_case(ctx, k, kind, in_multicall):
+def deferred_slow_case(ctx, k, kind, in_multicall, cuts=None):
     """a plugin namespace answering after k polls (alone, or inside system.multicall between immediate calls)"""
     from supervisor import xmlrpc
     if in_multicall:
@@ -1339,11 +1377,13 @@ def deferred_slow_case(ctx, k, kind, in_multicall):
         params = [calls]
     else:
         method, params = 'slow.slow', [k, kind]
+    if cuts == 'auto':
+        cuts = auto_cuts(ctx.rng, method, params)
+    inp = {'part': 'e2e-deferred', 'case': 'slow', 'k': k, 'kind': kind, 'in_multicall': in_multicall, 'cuts': cuts}
     sup, iface, subs2 = deferred_world()
-    res = deferred_request(xmlrpc.supervisor_xmlrpc_handler(sup, subs2), method, params)
+    res = deferred_request(xmlrpc.supervisor_xmlrpc_handler(sup, subs2), method, params, cuts=cuts, replay_input=inp)
     sup, iface, subs3 = deferred_world()
-    deferred_check(ctx, 'multicall[slow.slow]' if in_multicall else 'slow.slow', res, direct_call(xmlrpc.RootRPCInterface(subs3), method, params),
-                   {'part': 'e2e-deferred', 'case': 'slow', 'k': k, 'kind': kind, 'in_multicall': in_multicall})
+    deferred_check(ctx, 'multicall[slow.slow]' if in_multicall else 'slow.slow', res, direct_call(xmlrpc.RootRPCInterface(subs3), method, params), inp)
 
 
 DEFERRED_REAL = {   # method -> (state before, state while waiting, parameters)
@@ -1354,7 +1394,7 @@ DEFERRED_REAL = {   # method -> (state before, state while waiting, parameters)
 }
 
 
-def deferred_real_case(ctx, method, j, pname, end_state):
+def deferred_real_case(ctx, method, j, pname, end_state, cuts=None):
     """stop / start with wait on the real interface, the process reaching `end_state` after j polls"""
     from supervisor import xmlrpc
     from supervisor.states import ProcessStates
@@ -1372,12 +1412,14 @@ def deferred_real_case(ctx, method, j, pname, end_state):
                 p.state = end
         return sup, iface, subs, between
     params = mk(pname)
+    if cuts == 'auto':
+        cuts = auto_cuts(ctx.rng, 'supervisor.' + method, params)
+    inp = {'part': 'e2e-deferred', 'case': 'real', 'method': method, 'j': j, 'end_state': end_state, 'pname': pname, 'cuts': cuts}
     sup, iface, subs, between = scenario()
-    res = deferred_request(xmlrpc.supervisor_xmlrpc_handler(sup, subs), 'supervisor.' + method, params, between)
+    res = deferred_request(xmlrpc.supervisor_xmlrpc_handler(sup, subs), 'supervisor.' + method, params, between, cuts=cuts, replay_input=inp)
     sup2, iface2, subs2, between2 = scenario()
     direct = direct_call(xmlrpc.RootRPCInterface(subs2), 'supervisor.' + method, params, between2)
-    deferred_check(ctx, 'supervisor.' + method, res, direct,
-                   {'part': 'e2e-deferred', 'case': 'real', 'method': method, 'j': j, 'end_state': end_state, 'pname': pname})
+    deferred_check(ctx, 'supervisor.' + method, res, direct, inp)
 
 
 def run_e2e_deferred(ctx):
@@ -1386,13 +1428,155 @@ def run_e2e_deferred(ctx):
     deferred_slow_case(ctx, 2, '\u00e9', True)
     for k in range(0, 6):
         for kind in ('value', 'fault', 'struct', 'text-\u00e9'):
-            deferred_slow_case(ctx, k, kind, False)
-            deferred_slow_case(ctx, k, kind, True)
+            for cuts in (None, 'auto'):         # delivered at once / cut into pieces (inside a character where there is one)
+                deferred_slow_case(ctx, k, kind, False, cuts)
+                deferred_slow_case(ctx, k, kind, True, cuts)
     for j in range(0, 5):
         for pname in ('proc', 'pr\u00f6c'):
             for method, end_state in (('stopProcess', 'STOPPED'), ('startProcess', 'RUNNING'), ('startProcess', 'BACKOFF'),
                                       ('stopAllProcesses', 'STOPPED'), ('startProcessGroup', 'RUNNING')):
-                deferred_real_case(ctx, method, j, pname, end_state)
+                for cuts in (None, 'auto'):
+                    deferred_real_case(ctx, method, j, pname, end_state, cuts)
+
+
+# =================================================================================================
+# the body collector and the header buffer vs the model (Model/Rpc.lean requestBody / requestHeader)
+# =================================================================================================
+def py_res_line(fn):
+    try:
+        v = fn()
+    except Exception as e:
+        return 'raises ' + type(e).__name__
+    if isinstance(v, bytes):
+        return 'bytes ' + (v.hex() if v else '-')
+    return 'text ' + (','.join(str(ord(c)) for c in v) if v else '-')
+
+
+def collect_impl(pieces):
+    """the real medusa collector fed the pieces of a body: what continue_request is handed"""
+    from supervisor.medusa.xmlrpc_handler import collector
+    class Chan:
+        def set_terminator(self, t): pass
+    class Req:
+        channel = Chan()
+        def get_header(self, name): return str(sum(len(p) for p in pieces))
+        def error(self, code): raise AssertionError('error %s' % code)
+    class H:
+        def continue_request(self, data, request): self.got = data
+    def go():
+        h = H()
+        c = collector(h, Req())
+        for p in pieces:
+            c.collect_incoming_data(p)
+        c.found_terminator()
+        return h.got
+    return py_res_line(go)
+
+
+def header_impl(pieces_on_wire):
+    """a real deferring_http_channel fed the pieces of a request header (blank line included): the header text it cracks,
+    read off the request object it offers to its handlers (request line + header lines)"""
+    import select
+    from supervisor.medusa import asyncore_25 as asyncore
+    class Recorder:
+        got = None
+        def match(self, request):
+            self.got = '\r\n'.join([request.request] + list(request.header))
+            return 0
+    rec = Recorder()
+    w = Wire(rec)
+    try:
+        for p in pieces_on_wire:
+            if w.closed:
+                break
+            w.b.sendall(p)
+            while not w.closed and select.select([w.a], [], [], 0)[0]:
+                asyncore.read(w.ch)
+        if rec.got is None:
+            m = re.search(r"<class '(\w+)'>", w.said[-1]) if w.said else None
+            return 'raises ' + (m.group(1) if m else '?')
+        return 'text ' + (','.join(str(ord(c)) for c in rec.got) if rec.got else '-')
+    finally:
+        w.close()
+
+
+def gen_bytes(rng):
+    """UTF-8 of a short text, usually damaged somewhere (truncation, overlong forms, surrogates, > U+10FFFF, stray bytes)"""
+    chars = ['a', 'Z', '<', '\u00e9', '\u00ff', '\u07ff', '\u0800', '\u20ac', '\ud7ff', '\ue000', '\ufffd', '\U00010000', '\U0001f600', '\U0010ffff', '\x7f', '\x80']
+    b = bytearray(''.join(rng.choice(chars) for _ in range(rng.randrange(0, 8))).encode('utf-8'))
+    r = rng.random()
+    bad = [b'\xc0\x80', b'\xc1\xbf', b'\xe0\x80\x80', b'\xe0\x9f\xbf', b'\xed\xa0\x80', b'\xed\xbf\xbf', b'\xf0\x80\x80\x80', b'\xf0\x8f\xbf\xbf',
+           b'\xf4\x90\x80\x80', b'\xf5\x80\x80\x80', b'\xff', b'\xfe', b'\x80', b'\xbf', b'\xc3', b'\xe2\x82', b'\xf0\x9f\x98', b'\xc3\x28', b'\xe2\x28\xa1',
+           b'\xf8\x88\x80\x80\x80', b'\xed\x9f\xbf', b'\xee\x80\x80', b'\xf4\x8f\xbf\xbf', b'\xe1\x80', b'\xf1\x80\x80']
+    if r < 0.35:
+        pass
+    elif r < 0.6:
+        k = rng.randrange(0, len(b) + 1); b[k:k] = rng.choice(bad)
+    elif r < 0.75 and b:
+        del b[rng.randrange(len(b))]
+    elif r < 0.9 and b:
+        b[rng.randrange(len(b))] = rng.randrange(256)
+    else:
+        b = bytearray(rng.randrange(256) for _ in range(rng.randrange(1, 6)))
+    return bytes(b)
+
+
+def cut_list(rng, data, exhaustive_two=False):
+    """chunkings of data: as lists of pieces"""
+    n = len(data)
+    res = [[data]]
+    if n >= 2:
+        res += [[data[:c], data[c:]] for c in (range(1, n) if exhaustive_two else [rng.randrange(1, n)])]
+        res.append([data[i:i + 1] for i in range(n)])
+        cuts = random_cuts(rng, n, rng.randrange(1, 5))
+        res.append(pieces_of(data, cuts))
+    return res
+
+
+def run_collect(ctx):
+    rng = ctx.rng
+    ops, il = [], []
+    def add(op, pieces, line):
+        ops.append('%s %s' % (op, ','.join(p.hex() if p else '-' for p in pieces)))
+        il.append(line)
+        ctx.count('collect:' + op + ':' + line.split()[0] + (':' + line.split()[1] if line.startswith('raises') else ''))
+        ctx.case_done((op, tuple(pieces)), nontrivial=len(pieces) > 1)
+    # ---- the bodies of the fragmented end-to-end requests, as they were cut
+    seen = set()
+    bodies = list(_BODIES)
+    rng.shuffle(bodies)
+    for body, cuts in bodies:
+        key = (body, tuple(cuts))
+        if key in seen or len(seen) >= ctx.n(600, 3000):
+            continue
+        seen.add(key)
+        pieces = pieces_of(body, [c for c in cuts if 0 < c < len(body)])
+        add('collect', pieces, collect_impl(pieces))
+    # ---- the demo input of seeded change C12-4: the body of getProcessInfo('café-€-worker') cut between the two bytes of é
+    from supervisor.compat import xmlrpclib
+    demo = xmlrpclib.dumps(('caf\u00e9-\u20ac-worker',), 'supervisor.getProcessInfo').encode('utf-8')
+    k = demo.index('\u00e9'.encode('utf-8')) + 1
+    add('collect', [demo[:k], demo[k:]], collect_impl([demo[:k], demo[k:]]))
+    # ---- arbitrary bytes (valid and damaged UTF-8), every 2-piece cut, byte at a time, random cuts
+    for _ in range(ctx.n(150, 1500)):
+        data = gen_bytes(rng)
+        for pieces in cut_list(rng, data, exhaustive_two=len(data) <= 12):
+            add('collect', pieces, collect_impl(pieces))
+    # ---- the header buffer of the real channel
+    for _ in range(ctx.n(60, 600)):
+        vals = [gen_bytes(rng).replace(b'\r', b'').replace(b'\n', b'') for _ in range(rng.randrange(0, 3))]
+        lines = [b'POST /RPC2 HTTP/1.1'] + [b'X-H%d: v' % i + v for i, v in enumerate(vals)]
+        head = b'\r\n'.join(lines)
+        if b'\r\n\r\n' in head + b'\r':
+            continue
+        wire = head + b'\r\n\r\n'
+        for cuts in [[], [rng.randrange(1, len(wire))], random_cuts(rng, len(wire), rng.randrange(1, 5))] + \
+                    [[c] for c in inside_char_cuts(head)[:6]]:
+            on_wire = pieces_of(wire, cuts)
+            model_pieces = [p for p in pieces_of(head, [c for c in cuts if 0 < c < len(head)]) if p]
+            add('header', model_pieces, header_impl(on_wire))
+    ctx.sample({'case': 'rpc collect', 'ops': [o[:100] for o in ops[:3]], 'impl': [l[:100] for l in il[:3]]})
+    ctx.correspond('collect', [('case rpc', ops)], [il])
 
 
 def run_frames(ctx):
@@ -1421,6 +1605,7 @@ def run(ctx):
     run_e2e(ctx)
     run_frag(ctx)
     run_e2e_deferred(ctx)
+    run_collect(ctx)
     run_frames(ctx)
 
 
@@ -1475,9 +1660,9 @@ def replay(ctx, data):
         session_case(ctx, [(m, p) for m, p in inp['reqs']], inp.get('mood', 1), plans=inp['plans'])
     elif part == 'e2e-deferred':
         if inp.get('case') == 'slow':
-            deferred_slow_case(ctx, inp['k'], inp['kind'], inp['in_multicall'])
+            deferred_slow_case(ctx, inp['k'], inp['kind'], inp['in_multicall'], inp.get('cuts'))
         else:
-            deferred_real_case(ctx, inp['method'], inp['j'], inp['pname'], inp['end_state'])
+            deferred_real_case(ctx, inp['method'], inp['j'], inp['pname'], inp['end_state'], inp.get('cuts'))
     else:
         raise Infra('unknown replay part %r' % part)
 
@@ -1487,7 +1672,7 @@ TECHNIQUE = ("Lean 4 theorems over a model of traverse() on an arbitrary attribu
              "(AST of rpcinterface.py, xmlrpc.py, docs/api.rst) and a step-function model of system.multicall; differential "
              "correspondence against the real traverse/multicall/interfaces and the real XML-RPC handler")
 LEVEL_TEXT = ("traverse_closed / refused_executes_nothing / arity_fault for every attribute table and every name; gating for every "
-              "documented process-control and configuration method (one exception, finding F39) by decide over the whole generated "
+              "documented process-control and configuration method (no exception; F39 fixed in e65d15a) by decide over the whole generated "
               "table; every raised fault name is a constant of Faults; multicall = the calls one after another for every call list, "
               "every deferred-callback behaviour and every tick schedule")
 LEVEL_NOTE = ("'never 500 / never hangs' is partial: proved for name resolution, arity, gating and the log methods; the method bodies and the "
